@@ -46,7 +46,7 @@ from topsim.core.machine import Machine                # noqa: E402
 from topsim.core.task import TaskStatus                # noqa: E402
 
 from .env import VerifEnv, BudgetExceeded              # noqa: E402
-from .scenario import StepView, serial_bound, unit_factor   # noqa: E402
+from .scenario import StepView, serial_bound, unit_factor, node_label   # noqa: E402
 
 _REAL_COLLATE = Monitor.collate_actor_dataframes
 
@@ -101,9 +101,10 @@ class FaultSched(Scheduling):
     """Fault kinds F2 (adversarial proposals) and F3 (stalled rounds) around a
     shipped scheduling algorithm."""
 
-    def __init__(self, inner, adv=None, stalls=None, explicit=None):
+    def __init__(self, inner, adv=None, stalls=None, explicit=None, norelease=False):
         super().__init__()
         self.inner = inner
+        self.norelease = norelease      # a user algorithm that leaves the release of its reservation to the Scheduler
         self.adv = adv
         self.rng = random.Random('adv/%s' % adv['seed']) if adv else None
         self.stalls = {k: set(v) for k, v in (stalls or {}).items()}
@@ -128,8 +129,18 @@ class FaultSched(Scheduling):
             self.stalled += 1
             self.fired['F3'] += 1
             return copy.copy(existing_schedule), workflow_plan.status, task_pool
-        alloc, status, pool = self.inner.run(cluster, clock, workflow_plan,
-                                             existing_schedule, task_pool)
+        if self.norelease:
+            # "The clean-up of resources is completed by the Scheduler once all Task objects in the WorkflowPlan
+            # have finished running, and requires no additional code on behalf of the user" (Cluster docstring)
+            cluster.release_batch_resources = lambda *a, **k: self.fired.update({'norelease': 1})
+            try:
+                alloc, status, pool = self.inner.run(cluster, clock, workflow_plan,
+                                                     existing_schedule, task_pool)
+            finally:
+                del cluster.release_batch_resources
+        else:
+            alloc, status, pool = self.inner.run(cluster, clock, workflow_plan,
+                                                 existing_schedule, task_pool)
         if not self.adv:
             return alloc, status, pool
         r = cluster._resources
@@ -171,16 +182,41 @@ class FaultSched(Scheduling):
         return alloc, status, pool
 
 
+_KEEP = 6
+
+
+def _content_dir(sc, d):
+    """One sub-directory per distinct configuration content.  A configuration that is simulated again in the same
+    interpreter (second run of C10, every pause point of C11, the paired runs of C16) is read from the *same,
+    unchanged* files, as an experiment loop over one configuration file would do; older ones are pruned."""
+    import hashlib
+    import shutil
+    key = json.dumps({k: sc.get(k) for k in ('unit', 'explicit_unit', 'machines', 'machine_order', 'arrays', 'max_ingest',
+                                             'hot', 'cold', 'obs', 'wfs')}, sort_keys=True)
+    sub = os.path.join(d, 'cfg-' + hashlib.sha1(key.encode()).hexdigest()[:16])
+    if os.path.isdir(sub) and os.path.exists(os.path.join(sub, 'cfg.json')):
+        os.utime(sub, None)
+        return sub, True
+    old = sorted((x for x in os.listdir(d) if x.startswith('cfg-')), key=lambda x: os.path.getmtime(os.path.join(d, x)))
+    for x in old[:max(0, len(old) - _KEEP + 1)]:
+        shutil.rmtree(os.path.join(d, x), ignore_errors=True)
+    os.makedirs(sub, exist_ok=True)
+    return sub, False
+
+
 def write_files(sc, d):
+    d, present = _content_dir(sc, d)
+    if present:
+        return os.path.join(d, 'cfg.json')
     for i, wf in enumerate(sc['wfs']):
         g = nx.DiGraph()
         for (n, comp, data) in wf['nodes']:
             if data is None:
-                g.add_node(int(n), comp=comp)
+                g.add_node(node_label(wf, n), comp=comp)
             else:
-                g.add_node(int(n), comp=comp, task_data=data)
+                g.add_node(node_label(wf, n), comp=comp, task_data=data)
         for (u, v, vol) in wf['edges']:
-            g.add_edge(int(u), int(v), transfer_data=vol)
+            g.add_edge(node_label(wf, u), node_label(wf, v), transfer_data=vol)
         with open(os.path.join(d, 'wf%d.json' % i), 'w') as fp:
             json.dump({'header': {'generator': 'verif'}, 'graph': nx.node_link_data(g)}, fp)
     pipelines = {}
@@ -190,10 +226,14 @@ def write_files(sc, d):
         obs.append({'name': o['name'], 'start': o['start'], 'duration': o['duration'],
                     'instrument_demand': o['instrument_demand'],
                     'data_product_rate': o['data_product_rate']})
+    resources = sc['machines']
+    if sc.get('machine_order'):
+        resources = {m: sc['machines'][m] for m in sc['machine_order'] if m in sc['machines']}
+        resources.update({m: v for m, v in sc['machines'].items() if m not in resources})
     cfg = {'instrument': {'telescope': {'total_arrays': sc['arrays'],
                                         'max_ingest_resources': sc['max_ingest'],
                                         'pipelines': pipelines, 'observations': obs}},
-           'cluster': {'header': {}, 'system': {'resources': sc['machines'],
+           'cluster': {'header': {}, 'system': {'resources': resources,
                                                 'system_bandwidth': 1.0}},
            'buffer': {'hot': sc['hot'], 'cold': sc['cold']}}
     if sc['unit'] != 'seconds' or sc.get('explicit_unit'):
@@ -246,8 +286,8 @@ def build(sc, d, env, monitor=None):
     else:
         raise ValueError(p)
     fs = None
-    if f.get('adv') or f.get('stalls'):
-        fs = FaultSched(alg, f.get('adv'), f.get('stalls'))
+    if f.get('adv') or f.get('stalls') or f.get('norelease'):
+        fs = FaultSched(alg, f.get('adv'), f.get('stalls'), norelease=bool(f.get('norelease')) and p == 'batch')
         alg = fs
     sim = Simulation(env, cfg, Telescope, planning_model=plan,
                      planning_algorithm=plan.algorithm, scheduling=alg,
@@ -385,7 +425,7 @@ def run_scenario(sc, d, oracle_cls=None, pauses=None, monitor=None, budget=None,
         if env.perm_changed:
             res.faults['F4'] += env.perm_changed
         if fs is not None:
-            res.faults.update({('F2:' + k if k != 'F3' else 'F3'): v for k, v in fs.fired.items()})
+            res.faults.update({('F3' if k == 'F3' else 'F9:norelease' if k == 'norelease' else 'F2:' + k): v for k, v in fs.fired.items()})
         try:
             orc.finish()
         except Exception as e:      # oracle crash = harness error, never a violation
